@@ -487,6 +487,46 @@ def run_git(case):
                 st = core.git(["status", "--porcelain"], cwd=d, check=False)
                 if st.returncode != 0:
                     viol.append({"sig": "C11/git2d/git-status-dies-on-dulwich-rewrite/%s" % ftag, "err": st.stderr.decode(errors="replace")[-200:]})
+                # conflict edits that re-use the entry objects read from disk in other slots: resolve with one side, swap the sides
+                from dulwich.index import ConflictedIndexEntry
+                if gl2 == gl and conflict and not viol:
+                    idx2 = Index(idxp)
+                    cpaths = [p_ for p_ in idx2 if isinstance(idx2[p_], ConflictedIndexEntry)]
+                    expected = [(e["name"], e["stage"], e["mode"], e["sha"]) for e in gl]
+                    done_edits = []
+                    for p_ in cpaths:
+                        c = idx2[p_]
+                        sides = {1: c.ancestor, 2: c.this, 3: c.other}
+                        have = [k for k, v in sides.items() if v is not None]
+                        op = rng.choice(["resolve", "resolve", "swap", "keep"])
+                        if op == "resolve":
+                            k = rng.choice(have)
+                            idx2[p_] = sides[k]
+                            keep = [t for t in expected if t[0] == p_ and t[1] == k][0]
+                            expected = [t for t in expected if t[0] != p_] + [(p_, 0, keep[2], keep[3])]
+                            done_edits.append("resolve-with-stage-%d" % k)
+                        elif op == "swap" and c.this is not None and c.other is not None:
+                            idx2[p_] = ConflictedIndexEntry(ancestor=c.ancestor, this=c.other, other=c.this)
+                            t2 = [t for t in expected if t[0] == p_ and t[1] == 2][0]
+                            t3 = [t for t in expected if t[0] == p_ and t[1] == 3][0]
+                            expected = [t for t in expected if not (t[0] == p_ and t[1] in (2, 3))] + [(p_, 2, t3[2], t3[3]), (p_, 3, t2[2], t2[3])]
+                            done_edits.append("swap-sides")
+                    if done_edits:
+                        idx2.write()
+                        gl3, err3 = git_list(d, idxp)
+                        stats["conflict_edits"] = len(done_edits)
+                        got3 = sorted((e["name"], e["stage"], e["mode"], e["sha"]) for e in (gl3 or []))
+                        if gl3 is None:
+                            viol.append({"sig": "C11/git2d/git-cannot-read-index-after-conflict-edit/%s" % "+".join(sorted(set(done_edits))), "err": err3})
+                        elif got3 != sorted(expected):
+                            bad = sorted(set(got3) ^ set(expected))
+                            viol.append({"sig": "C11/git2d/conflict-edit-written-with-wrong-stages/%s" % "+".join(sorted(set(done_edits))),
+                                         "differs": [(core.short(t[0], 30), t[1]) for t in bad[:6]], "version": version})
+                        else:
+                            # and dulwich reads its own result the same way
+                            back = entries_of(Index(idxp))
+                            if sorted((e["name"], e["stage"], e["mode"], e["sha"]) for e in back) != sorted(expected):
+                                viol.append({"sig": "C11/git2d/conflict-edit-read-back-differently/%s" % "+".join(sorted(set(done_edits))), "version": version})
         except Exception as ex:
             viol.append({"sig": "C11/git2d/read-raises-%s/%s" % (type(ex).__name__, "split-index" if "split-index" in feat else ftag),
                          "version": version, "msg": str(ex)[:120]})
